@@ -699,6 +699,8 @@ func Handle(in []byte) any {
 		runTwoReaders(&sc, out)
 	case "twoblocked":
 		runTwoBlocked(&sc, out)
+	case "finalise":
+		runFinalise(&sc, out)
 	case "reader":
 		runReader(&sc, out)
 	default:
